@@ -26,8 +26,11 @@ var c10EntryName = regexp.MustCompile(`^(Unmarshal.*|SetBytes|FromBytes|SetStrin
 
 // c10Exempt: id -> justification.
 var c10Exempt = map[string]string{
-	"hpke.hybridKEM.AuthDecapsulate": "unsupported operation: the body is an unconditional panic(\"AuthDecapsulate is not supported for this KEM\"), independent of any input byte; reached only when the application itself selects an auth mode with this KEM",
-	"sign/ed25519.pointR1.FromBytes": "method of an unexported type; entered through sign/ed25519.Verify* rows (#pk)",
+	"hpke.hybridKEM.AuthDecapsulate":       "unsupported operation: the body is an unconditional panic(\"AuthDecapsulate is not supported for this KEM\"), independent of any input byte; reached only when the application itself selects an auth mode with this KEM",
+	"sign/ed25519.pointR1.FromBytes":       "method of an unexported type; entered through sign/ed25519.Verify* rows (#pk)",
+	"hpke.Sender.SetupPSK":                 "sender side: psk / pskID are the caller's own secrets, nothing received from the peer is parsed",
+	"hpke.Sender.SetupAuthPSK":             "sender side: psk / pskID are the caller's own secrets, nothing received from the peer is parsed",
+	"oprf.PartialObliviousClient.Finalize": "the only byte argument is the public `info` string chosen by the application (hashed to a scalar, never parsed); the server's Evaluation is a typed struct whose byte decoders (group elements / scalars, dleq.Proof) have their own rows",
 }
 
 func c10TypeStr(e ast.Expr) string {
